@@ -43,6 +43,10 @@ def materialise(eng, st, v, M):
         return [RefV(Cell(K(b), "byte@%d" % (it.fields[0].v + i))) for i, b in enumerate(data[it.fields[0].v:])]
     if isinstance(it, AggV) and it.kind == M.LIST_ITER:
         return [RefV(c) for c in it.fields[1].cells[it.fields[0].v:]]
+    if isinstance(it, AggV) and it.kind == "array-into-iter" and isinstance(it.fields.get(0), K) and isinstance(it.fields.get(1), AggV):
+        # `[a, b, c].into_iter()`: the elements by value, in order
+        arr = it.fields[1]
+        return [arr.fields[i] for i in sorted(arr.fields)][it.fields[0].v:]
     if isinstance(it, AggV) and it.kind.split("::")[-1] == "Range":
         lo, hi = eng.resolve(st, it.fields.get(0)), eng.resolve(st, it.fields.get(1))
         if isinstance(lo, K) and isinstance(hi, K) and hi.v - lo.v < 100000:
